@@ -7,6 +7,7 @@
 //! connection creation panic abandons itself (the panic happens while savefile-abi holds a global
 //! mutex, which stays poisoned) and is restarted behind that entry.
 mod c10;
+mod c10obj;
 mod c11;
 mod model10;
 mod plugin;
